@@ -422,9 +422,18 @@ class Imp:
                 return v
             raise Unsupported("unary %s on a %s" % (op, v.sort))
         if k == "BinaryOperator":
-            return self.binop(n.get("opcode"), self.ev(n["inner"][0], env), self.ev(n["inner"][1], env))
+            a = self.ev(n["inner"][0], env)
+            before = dict(env)
+            b = self.ev(n["inner"][1], env)
+            if n.get("opcode") in ("&&", "||") and before != env:
+                raise Unsupported("a side effect in the right operand of %s (evaluated only sometimes)" % n.get("opcode"))
+            return self.binop(n.get("opcode"), a, b)
         if k == "ConditionalOperator":
-            c, a, b = [self.ev(x, env) for x in n["inner"]]
+            c = self.ev(n["inner"][0], env)
+            before = dict(env)
+            a, b = [self.ev(x, env) for x in n["inner"][1:]]
+            if before != env:
+                raise Unsupported("a side effect inside a conditional expression")
             if c.sort != "bool" or a.sort != b.sort:
                 raise Unsupported("conditional expression sorts")
             return Val("(if %s then %s else %s)" % (c.term, a.term, b.term), a.sort)
@@ -663,11 +672,19 @@ class Imp:
                 if not init:
                     raise Unsupported("uninitialised local %s" % v.get("name"))
                 nm = v["name"]
-                if ty.rstrip().endswith("&") and "const" not in ty.split("&")[0].split()[:1]:
-                    root, steps = self.path(init[0], env)      # a reference: an alias of the location
-                    self.locals[nm] = "alias"
-                    env[nm] = Val("?alias", "alias", (root, tuple(steps)))
-                    continue
+                if ty.rstrip().endswith("&"):
+                    # a reference bound to an lvalue is an alias of that location (a later write to the location is seen
+                    # through it); a const reference bound to a temporary is the value
+                    try:
+                        root, steps = self.path(init[0], env)
+                    except Unsupported:
+                        if "const" not in ty.split("&")[0].split()[:1]:
+                            raise
+                        root = None
+                    if root is not None:
+                        self.locals[nm] = "alias"
+                        env[nm] = Val("?alias", "alias", (root, tuple(steps)))
+                        continue
                 x = self.ev(init[0], env)
                 if x.sort not in COQTY and x.sort != "iter":
                     raise Unsupported("local %s of sort %s" % (nm, x.sort))
@@ -907,7 +924,7 @@ class Imp:
         sig += ["(%s : %s)" % (nm, self.sort_of_var(nm)) for nm in reads]
         text = "(* %s\n   arguments: %s\n   result: %s *)\n" % (
             comment,
-            ", ".join(sorted(self.fparams) + [p for p, s in self.params if s != "report"] + reads) or "none",
+            ", ".join(sorted(self.fparams) + [coqname(p) for p, s in self.params if s != "report"] + reads) or "none",
             ", ".join(written + (["returned value"] if has_ret else [])) + ("; None = undefined behaviour in the C++" if self.partial else ""))
         text += "Definition %s %s : %s :=\n%s.\n" % (cname, " ".join(sig), rty, body)
         kn = Known(cname, len([p for p in self.params if p[1] != "report"]), [(r, self.free[r]) for r in reads], written, ret_sort, self.partial,
